@@ -13,6 +13,7 @@ from vlib import core
 from checks.surf import write_mc
 
 PID = "X06"
+MAX_CONFIRM = 6
 STAT_KEYS = ["ext", "regular", "degenerate", "reject", "refused", "closedpath", "planes", "radii", "zerorings",
              "tris", "rep", "placed", "copies", "reprefused"]
 
@@ -201,7 +202,7 @@ def path_kind(c):
 
 
 def signature(pred, case, info=None):
-    if (info or {}).get("flip") == "geometric-quad-flip":
+    if pred == "X06.Oriented" and (info or {}).get("flip") == "geometric-quad-flip":
         # classified by TLC (Extrude!FlipClass): one root cause whatever the path is
         return "%s/polygon-family/geometric-quad-flip" % pred
     cls = (info or {}).get("class", "")
@@ -227,9 +228,11 @@ def report(ctx, vh, cases, raw, findings):
         if sig in confirmed:
             confirmed[sig] += 1
             continue
-        again, _ = judge(ctx, execute(ctx, vh, [case], "confirm"), "confirm", nshards=1)
-        if not any(a["pred"] == f["pred"] for a in again):
-            raise core.Infra("rejection %s of %s did not reproduce on re-execution" % (f["pred"], describe(case)))
+        if len(confirmed) < MAX_CONFIRM:        # re-execute and re-judge (the first few distinct signatures)
+            again, _ = judge(ctx, execute(ctx, vh, [case], "confirm"), "confirm", nshards=1)
+            ctx.evaluations -= 1
+            if not any(a["pred"] == f["pred"] for a in again):
+                raise core.Infra("rejection %s of %s did not reproduce on re-execution" % (f["pred"], describe(case)))
         confirmed[sig] = 1
         o = json.loads(raw[f["line"]])
         what = "%s rejected the real result (%s%s, %d triangles, %d positions, %d transforms, finite=%s) of %s" % (
